@@ -14,6 +14,21 @@ pub assume_specification [u64::pow] (b: u64, e: u32) -> (r: u64)
     requires ipow(b as int, e as nat) <= u64::MAX,
     ensures r == ipow(b as int, e as nat);
 
+pub assume_specification [u64::saturating_pow] (b: u64, e: u32) -> (r: u64)
+    ensures r == (if ipow(b as int, e as nat) <= u64::MAX { ipow(b as int, e as nat) } else { u64::MAX as int });
+// (u64::saturating_mul: vstd ships its specification)
+
+pub proof fn lemma_ipow_pos(b: int, e: nat)
+    requires b >= 1,
+    ensures ipow(b, e) >= 1,
+    decreases e,
+{
+    if e > 0 {
+        lemma_ipow_pos(b, (e - 1) as nat);
+        assert(b * ipow(b, (e - 1) as nat) >= 1) by (nonlinear_arith) requires b >= 1, ipow(b, (e - 1) as nat) >= 1;
+    }
+}
+
 pub proof fn lemma_pow4_shift(d: nat)
     requires d <= 31,
     ensures ipow(4, d) == (1u64 << ((2 * d) as u64)), ipow(4, d) >= 1,
@@ -71,6 +86,11 @@ pub open spec fn stride_of(r: int) -> u64 { if r < 2 { 1u64 << 58 } else { 1u64 
 pub open spec fn first_child_bits(x: u64, r: int) -> bool {
     if r < 2 { top6(x) % (if r == 0 { 12int } else { 5int }) == 0 }
     else { x & (3u64 << ((60 - 2 * r) as u64)) == 0 }
+}
+
+/// |a - b| <= b * 1e-15  (the two JS-rounded literals of get_num_cells)
+pub open spec fn close_to(a: int, b: int) -> bool {
+    (a - b) * 1000000000000000 <= b && (b - a) * 1000000000000000 <= b
 }
 
 /// hierarchy fan-out between resolutions p <= t
@@ -199,9 +219,7 @@ pub proof fn lemma_anc_compose(c: A5Cell, a: int, b: int)
     ensures anc(anc(c, a), b) == anc(c, b),                                         // [C07:ancestor-composes]
 {
     if b >= 2 && b < a && a < c.resolution {
-        let k1 = (2 * (c.resolution - a)) as u64;
-        let k2 = (2 * (a - b)) as u64;
-        bv_shr_shr(c.s, k1, k2);
+        bv_shr_even(c.s, (c.resolution - a) as u64, (a - b) as u64);
     }
 }
 
